@@ -344,6 +344,7 @@ class EmptyFrame(_Generic):
                 row[c] = SV(t)
             sp = v.space if v.kind == "series" else _mk_range(v.space)
             self._real = GFrame(list(self.cols), row, sp, v.present)
+            self._real.nan_cols = set(self.cols)
         self._real[k] = v
 
     def __getattr__(self, k):
@@ -356,6 +357,9 @@ class EmptyFrame(_Generic):
         if self._real is not None:
             return self._real[k]
         raise Unsupported("column of an empty frame")
+
+    def dropna(self, *a, **k):
+        return self._real.dropna(*a, **k) if self._real is not None else self
 
     def fillna(self, *a, **k):
         return self._real.fillna(*a, **k) if self._real is not None else self
